@@ -75,12 +75,12 @@ PROPS = {
         ],
     ),
     'C11': dict(
-        verus=['varint_pbf', 'vector_tile_tables', 'vector_tile_feature', 'vector_tile_layer'],
+        verus=['varint_pbf', 'vector_tile_tables', 'vector_tile_feature', 'vector_tile_layer', 'vector_tile_layer_enc'],
         kani=[],
         not_decided=[
             'the operation itself (vectortiles_update_properties::run, filter_map_properties): iterator adapters and closures over iter_mut',
             'only-the-named-layer-changes, CSV join semantics, value typing (GeoValue)',
-            'encode_tag_ids (iterates a BTreeMap: no ghost iterator for the stand-in), VectorTileLayer::to_blob framing, GeoValue typing',
+            'encode_tag_ids (iterates a BTreeMap: no ghost iterator for the stand-in), GeoValue typing and value sub-message codec',
             'feature decoder correctness beyond totality (to_blob is proved against the MVT wire layout; read is proved total, the composition read(to_blob(f)) = f is not)',
             'round trip lemma dec(enc(v)) = v for varints is stated per direction (encoder = LEB128 spec, decoder = 7-bit group rule), not composed',
         ],
